@@ -1,4 +1,5 @@
-(* Shared driver of C22 / C23 / C24 (coq/extract/C22 and C23 hold symlinks to this file).
+(* Shared driver of C22 / C23 / C24.  The master copy is coq/extract/C24/kvdrv.ml; C22 and C23 hold copies
+   refreshed by the pre_build_cmd of checks/C22.json and checks/C23.json (edit only the C24 file).
    Parses the case format documented in harness/kvh/kvh.go, steps the extracted MODEL
    (KvStack.run_op) and the extracted SPECIFICATION (KvStackSpec.spec_run_op) over the same
    operations and compares both with the implementation's observation tokens.
@@ -38,11 +39,12 @@ let init_of_header (hd : string list) : st * sst =
   | base :: layers ->
     let m0, s0 = (match base with
       | "mem" -> Mem [], SEng []
-      | "ldb" -> Eng (ELdb, []), SEng []
-      | "pbl" -> Eng (EPbl, []), SEng []
+      | "ldb" | "ldb!" -> Eng (ELdb, []), SEng []
+      | "pbl" | "pbl!" -> Eng (EPbl, []), SEng []
       | _ -> failwith ("bad base " ^ base)) in
     List.fold_left (fun (m, s) l ->
       if l = "f" then (Flu ([], m), SFlu ([], s))
+      else if l = "z" then (Lzy ([], false, m), SLzy ([], false, s))
       else if l = "s" then (Syn m, SSyn s)
       else if String.length l >= 1 && l.[0] = 't' then
         let p = bytes_of_tok (String.sub l 1 (String.length l - 1)) in (Tab (p, m), STab (p, s))
@@ -87,7 +89,8 @@ let toks_of_obs (o : obs) : string list =
                  List.concat_map (function WPut (k, v) -> ["P"; tok_of_bytes k; tok_of_bytes v]
                                          | WDel k -> ["D"; tok_of_bytes k]) l
   | BNfp n -> ["N"; tok_of_nat n]
-  | BCompact (lo, hi) -> ["C"; tok_of_okey lo; tok_of_okey hi]
+  | BCompact (Some (lo, hi)) -> ["C"; tok_of_okey lo; tok_of_okey hi]
+  | BCompact None -> ["C"; "!"; "!"]
   | BNone -> ["X"]
 
 (* take the implementation's tokens of one observation off the stream *)
@@ -130,7 +133,27 @@ let live_ok (prefix, start, last) (chunk : string list) : bool * n list option =
   | ["X"] -> (true, last)
   | _ -> (false, last)
 
-let eval (inp : string list) (impl : string list) : Drv.verdict =
+(* UNIQ t1 t2 ... : reflect.go.  obs = U ok|err (OpenTables = uniqKeys.Check) then the raw content
+   after writing value <i> at key 6b through the table MigrateTables created for tag i. *)
+let rec eval (inp : string list) (impl : string list) : Drv.verdict =
+  match inp with
+  | "UNIQ" :: tags ->
+    let tags = List.map bytes_of_tok tags in
+    let used = table_tags tags in
+    let u_model = if uniq_check used then "ok" else "err" in
+    let puts = List.mapi (fun i p -> ["put"; "0/" ^ tok_of_bytes p; "6b"; Printf.sprintf "%02x" (i + 1)]) used in
+    let hist = ["mem"] @ List.concat_map (fun o -> ";" :: o) (puts @ [["it"; "0"; "~"; "~"]]) in
+    (match impl with
+     | "U" :: u :: rest ->
+       let v = eval_history hist rest in
+       let sound = (u <> "ok") || incomparable_all used in
+       { v with Drv.model_obs = "U" :: u_model :: v.Drv.model_obs;
+                spec_ok = (match v.Drv.spec_ok with Some b -> Some (b && sound) | None -> Some sound);
+                note = (if sound then v.Drv.note else "uniqKeys.Check accepted comparable prefixes") }
+     | _ -> { Drv.default_verdict with model_obs = ["U"; u_model]; spec_ok = Some false })
+  | _ -> eval_history inp impl
+
+and eval_history (inp : string list) (impl : string list) : Drv.verdict =
   let parts = split_on ";" inp in
   let header, ops = (match parts with h :: o -> h, o | [] -> failwith "empty case") in
   let m0, s0 = init_of_header header in
@@ -157,11 +180,12 @@ let eval (inp : string list) (impl : string list) : Drv.verdict =
         let (chunk, rest') = next_chunk !rest in
         rest := rest';
         (match o, om with
-         | OCompact (h, a, l), BCompact (lo, hi) ->
-           if not (compact_ok sr_before.ss_store h a l lo hi) then ms_ok := false;
+         | OCompact (h, a, l), BCompact rng ->
+           if not (compact_ok sr_before.ss_store h a l rng) then ms_ok := false;
            (match chunk with
             | ["C"; ilo; ihi] ->
-              if not (compact_ok sr_before.ss_store h a l (okey_of_tok ilo) (okey_of_tok ihi)) then fail_spec "compact range does not cover the table"
+              let irng = if ilo = "!" then None else Some (okey_of_tok ilo, okey_of_tok ihi) in
+              if not (compact_ok sr_before.ss_store h a l irng) then fail_spec "compact range does not cover the table"
             | _ -> fail_spec "compact")
          | _ ->
            let st = toks_of_obs os in
